@@ -275,6 +275,9 @@ case("F65 IntervalIndex with gaps", lambda: groupby_reduce(np.ones(12), np.array
 # F66
 case("F66 max on the numba engine with a NaN member", lambda: groupby_reduce(np.array([1.0, np.nan, 2.0]), np.array([0, 0, 0]), func="max", engine="numba")[0].tolist(), lambda r: r[0] != r[0])
 
+# F67
+case("F67 automatic plan with a zero-length chunk", lambda: groupby_reduce(da.from_array(np.arange(24.0), chunks=((5, 7, 0, 12),)), np.array([0] * 5 + [1] * 7 + [2] * 12), func="sum", expected_groups=np.arange(4), fill_value=-1)[0].compute().tolist(), lambda r: r == [10.0, 56.0, 210.0, -1.0])
+
 bad = 0
 for name, verdict in results:
     print(f"{name:55s} {verdict}")
